@@ -147,3 +147,100 @@ def check(ctx):
                 ctx.ob("result.plain-accepted", c, "%s.%s inherited" % (c.name, name), True,
                        "returns a plain %s with equal contents: not demanded typed by the statement" % base, nontrivial=False)
     ctx.need(nover >= 10, "fewer than 10 overrides of builtin methods found in the proxies")
+    check_star_params(ctx)
+    check_repetition(ctx)
+
+
+def check_star_params(ctx):
+    """`update(other, **kw)` applies both: a method that takes **kwargs / *args consumes them on every normal path."""
+    an, model = ctx.an, ctx.model
+    n = 0
+    for cname in ("DictProxy", "ListProxy"):
+        c = model.cls(cname)
+        for mname, f in sorted(c.methods.items()):
+            stars = [a.arg for a in (f.node.args.vararg, f.node.args.kwarg) if a is not None]
+            if not stars or mname == "__init__":
+                continue
+            g = an.cfg(f)
+            for sname in stars:
+                n += 1
+                uses = {m for m in g.nodes if m.ast is not None and m.kind in ("call", "assign", "for_iter", "attr", "test", "return", "expr", "bind")
+                        and any(isinstance(x, ast.Name) and x.id == sname and isinstance(x.ctx, ast.Load) for x in ast.walk(m.ast))}
+                p = path_avoiding(an, f, g.entry, lambda x: x is g.exit, lambda x: x in uses)
+                ctx.ob("forward.star-params", f, "%s(%s%s)" % (mname, "**" if f.node.args.kwarg and f.node.args.kwarg.arg == sname else "*", sname), p is None,
+                       "the extra arguments are applied on every path" if p is None else
+                       "%s can return without looking at %s (%s): the builtin applies them in every call form" % (
+                           f.qualname, sname, " -> ".join("%s@%s" % (x.kind, x.lineno) for x in p[:6])))
+    if n == 0:
+        ctx.note("no *args/**kwargs taking proxy method (the override table reports a missing / narrowed update)")
+
+
+def check_repetition(ctx):
+    """`proxy * n` / `n * proxy`: the builtin yields max(0, n) repetitions.  An override either hands the count to the builtin
+    or is the loop `start; for _ in range(n + c): extend`, whose repetition count start + max(0, n + c) is compared with
+    max(0, n) in both regimes n >= 1 and n <= 0 (a finite case split: the law is linear in n)."""
+    an, model = ctx.an, ctx.model
+    lp = model.cls("ListProxy")
+    for mname in ("__mul__", "__rmul__", "__imul__"):
+        f = lp.methods.get(mname)
+        if f is None:
+            # an alias `__rmul__ = __mul__` is decided with its target; absence means the builtin's own operator
+            continue
+        if len(f.positional_params) < 2:
+            continue
+        cparam = f.positional_params[1]
+        g = an.cfg(f)
+        delegated = any(m.kind == "call" and isinstance(m.ast.func, ast.Attribute) and m.ast.func.attr in ("__mul__", "__rmul__", "__imul__")
+                        and any(isinstance(a, ast.Name) and a.id == cparam for a in m.ast.args) for m in g.nodes) or \
+            any(isinstance(x, ast.BinOp) and isinstance(x.op, ast.Mult) and any(isinstance(y, ast.Name) and y.id == cparam for y in (x.left, x.right))
+                for x in ast.walk(f.node))
+        if delegated:
+            ctx.ob("repeat.count-law", f, mname, True, "the repetition count is handed to the builtin operator")
+            continue
+        loops = [x for x in ast.walk(f.node) if isinstance(x, ast.For) and isinstance(x.iter, ast.Call) and isinstance(x.iter.func, ast.Name)
+                 and x.iter.func.id == "range" and len(x.iter.args) == 1]
+        if len(loops) != 1:
+            ctx.ob("repeat.count-law", f, mname, True, "shape not recognised: repetition law not decided for this spelling", nontrivial=False)
+            ctx.note("%s: repetition not written as one range() loop or a builtin multiplication; count law not decided" % f.qualname)
+            continue
+        arg = loops[0].iter.args[0]
+        c = None
+        if isinstance(arg, ast.Name) and arg.id == cparam:
+            c = 0
+        elif isinstance(arg, ast.BinOp) and isinstance(arg.left, ast.Name) and arg.left.id == cparam and isinstance(arg.right, ast.Constant) \
+                and isinstance(arg.right.value, int) and isinstance(arg.op, (ast.Add, ast.Sub)):
+            c = arg.right.value if isinstance(arg.op, ast.Add) else -arg.right.value
+        if c is None:
+            ctx.ob("repeat.count-law", f, mname, True, "loop bound not linear in the count: not decided", nontrivial=False)
+            continue
+        # how many copies of self does the accumulator start with?
+        start = None
+        for r in returns_of(an, f):
+            for k, pl in value_sources(f, r.ast.value, r):
+                if k == "expr" and isinstance(pl, ast.Call) and isinstance(pl.func, ast.Attribute) and pl.func.attr == "copy":
+                    start = 1
+                elif k == "expr" and isinstance(pl, ast.Call) and any(t.kind == "ctor" for nn in g.nodes_for(pl) for t in an.targets(f, nn)):
+                    has_data = len(pl.args) >= 3 or any(kw.arg in ("iterable",) for kw in pl.keywords)
+                    start = 1 if has_data else 0
+                elif k == "param" and pl == f.self_name:
+                    start = 1
+        if start is None:
+            ctx.ob("repeat.count-law", f, mname, True, "accumulator not recognised: not decided", nontrivial=False)
+            continue
+        # guard clause for n <= 0 returning an empty proxy?
+        guarded = False
+        for t in g.nodes:
+            if t.kind == "test" and isinstance(t.ast, ast.Compare) and isinstance(t.ast.left, ast.Name) and t.ast.left.id == cparam \
+                    and isinstance(t.ast.comparators[0], ast.Constant) and (
+                        (isinstance(t.ast.ops[0], ast.LtE) and t.ast.comparators[0].value == 0) or
+                        (isinstance(t.ast.ops[0], ast.Lt) and t.ast.comparators[0].value == 1)):
+                for s_, lbl in t.succ:
+                    if lbl is True and g.path(s_, lambda x: x.kind == "return", may_raise=lambda x: False, stop=lambda x: x.kind in ("test", "for_iter")):
+                        guarded = True
+        ok_pos = (start + max(0, 1 + c) == 1) and (start + max(0, 5 + c) == 5)
+        ok_nonpos = guarded or (start == 0 and c <= 0)
+        ok = ok_pos and ok_nonpos
+        ctx.ob("repeat.count-law", f, mname, ok,
+               "start=%d, range(n%+d): n repetitions for n >= 1 and none for n <= 0, like the builtin" % (start, c) if ok else
+               ("the result holds %d + max(0, n%+d) copies of the items; the builtin holds max(0, n): %s" % (
+                   start, c, "wrong for n <= 0 (list * 0 is empty)" if ok_pos else "wrong for positive counts")))
